@@ -379,6 +379,73 @@ pub fn run(cfg: &Cfg, rep: &mut Report) {
     }
   }
 
+  // long-lived subscriptions: a couple of hundred notifications through one observe_on / delay
+  // subscription, in bursts separated by quiet moments in which everything scheduled has run
+  if cfg.only_case.is_none() || cfg.only_case.as_deref().map_or(false, |c| c.starts_with("long")) {
+    let mut idx = 0usize;
+    let mut r = Rng::new(cfg.seed ^ 0xC07106);
+    for _ in 0..cfg.n(40, 2_000) {
+      for flavor in [Flavor::Local, Flavor::Threads, Flavor::LocalPool] {
+        for op in [Op::ObserveOn, Op::Delay(0), Op::Delay(1), Op::DelayAt(-5)] {
+          idx += 1;
+          let bursts: Vec<usize> = (0..3 + r.below(6)).map(|_| 1 + r.below(70)).collect();
+          let terminal = r.below(3) as u8;
+          if !cfg.mine(idx) {
+            continue;
+          }
+          let id = format!("long:{}", idx);
+          if !cfg.wants(&id) {
+            continue;
+          }
+          rep.evaluations += 1;
+          rep.count("long_lived_subscription_cases", 1);
+          let (want, got) = long_case(flavor, &op, &bursts, terminal);
+          rep.events += want.len() as u64;
+          rep.nontrivial.insert(hash64(&("long", flavor, &op, &bursts, terminal)));
+          match got {
+            Err(p) => rep.violation("panic", &format!("{}[long-lived subscription]", op.name()), &id, json!({"flavor": format!("{:?}", flavor), "bursts": bursts, "panic": p})),
+            Ok(out) if out != want => {
+              let first_bad = out.iter().zip(want.iter()).position(|(a, b)| a != b).unwrap_or(out.len().min(want.len()));
+              rep.violation("items_or_terminal_lost", &format!("{}[long-lived subscription]", op.name()), &id, json!({"flavor": format!("{:?}", flavor), "bursts": bursts, "expected_notifications": want.len(), "observed_notifications": out.len(), "first_difference_at": first_bad}));
+            }
+            _ => {}
+          }
+        }
+      }
+    }
+  }
+
+  // the real clock crosses the instant of delay_at in the middle of the source's history
+  // (a few milliseconds of real sleeping per case, hence a small battery)
+  if cfg.only_case.is_none() || cfg.only_case.as_deref().map_or(false, |c| c.starts_with("crossing")) {
+    let reps = cfg.n(6, 60);
+    let mut idx = 0usize;
+    for rep_i in 0..reps {
+      for flavor in [Flavor::Local, Flavor::Threads, Flavor::LocalPool] {
+        for before in 1..=2usize {
+          idx += 1;
+          if !cfg.mine(idx) {
+            continue;
+          }
+          let id = format!("crossing:{}", idx);
+          if !cfg.wants(&id) {
+            continue;
+          }
+          rep.evaluations += 1;
+          rep.count("delay_at_instant_crossed_mid_history", 1);
+          let (want, got) = crossing_case(flavor, before, 1 + rep_i % 3);
+          rep.events += want.len() as u64;
+          rep.nontrivial.insert(hash64(&("crossing", flavor, before, rep_i)));
+          match got {
+            Err(p) => rep.violation("panic", "delay_at[instant crossed mid-history]", &id, json!({"flavor": format!("{:?}", flavor), "panic": p})),
+            Ok(out) if out != want => rep.violation("order_not_preserved", "delay_at[instant crossed mid-history]", &id, json!({"flavor": format!("{:?}", flavor), "expected": jn(&want), "observed": jn(&out)})),
+            _ => {}
+          }
+        }
+      }
+    }
+  }
+
   // thread part: the producer on one thread, the operator's tasks on a FIFO
   // worker thread (a single-threaded pool running on its own thread)
   let n = cfg.n(8_000, 400_000);
@@ -457,5 +524,70 @@ fn feedback_case(flavor: Flavor, ops: &[Op], n: usize, terminal: u8) -> (Vec<N>,
     out
   });
   clear_local_cbs();
+  (want, got)
+}
+
+/// delay_at(now + 2 ms): `before` items are produced before the instant, then the real clock
+/// passes it (the thread sleeps 4 ms, nothing runs meanwhile), then `after` items and the
+/// completion follow at once; then everything scheduled runs in due order
+fn crossing_case(flavor: Flavor, before: usize, after: usize) -> (Vec<N>, Result<Vec<N>, String>) {
+  let total = before + after;
+  let mut want: Vec<N> = (0..total).map(|i| N::Next(V::I(100 + i as i64))).collect();
+  want.push(N::Complete);
+  let got = catch(|| {
+    let mut w = World::new(flavor, 1);
+    w.timer_ties_fifo = true;
+    let chain = Chain::new(Src::Hot(0), vec![Op::DelayAt(2)]);
+    w.subscribe(&chain, 1);
+    for i in 0..before {
+      w.inject(0, N::Next(V::I(100 + i as i64)));
+    }
+    std::thread::sleep(std::time::Duration::from_millis(4));
+    for i in before..total {
+      w.inject(0, N::Next(V::I(100 + i as i64)));
+    }
+    w.inject(0, N::Complete);
+    let mut rng = Rng::new(9);
+    w.drain(Policy::Fifo, u64::MAX / 4, &mut rng);
+    let out = w.log.notes(1);
+    w.teardown();
+    out
+  });
+  (want, got)
+}
+
+/// bursts of items; after every burst everything scheduled runs (a quiet moment); then the terminal
+fn long_case(flavor: Flavor, op: &Op, bursts: &[usize], terminal: u8) -> (Vec<N>, Result<Vec<N>, String>) {
+  let total: usize = bursts.iter().sum();
+  let mut want: Vec<N> = (0..total).map(|i| N::Next(V::I(1000 + i as i64))).collect();
+  match terminal {
+    1 => want.push(N::Complete),
+    2 => want.push(N::Err(7)),
+    _ => {}
+  }
+  let got = catch(|| {
+    let mut w = World::new(flavor, 1);
+    w.timer_ties_fifo = true;
+    let chain = Chain::new(Src::Hot(0), vec![op.clone()]);
+    w.subscribe(&chain, 1);
+    let mut rng = Rng::new(11);
+    let mut k = 0i64;
+    for b in bursts {
+      for _ in 0..*b {
+        w.inject(0, N::Next(V::I(1000 + k)));
+        k += 1;
+      }
+      w.drain(Policy::Fifo, u64::MAX / 4, &mut rng);
+    }
+    match terminal {
+      1 => w.inject(0, N::Complete),
+      2 => w.inject(0, N::Err(7)),
+      _ => {}
+    }
+    w.drain(Policy::Fifo, u64::MAX / 4, &mut rng);
+    let out = w.log.notes(1);
+    w.teardown();
+    out
+  });
   (want, got)
 }
